@@ -59,21 +59,3 @@ def update_along_hook(fname='nv_state_update_along'):
         P.pending_throw = False
         return f'{fname}({selfexpr}, {P.addr(origin)}, {P.expr(step)}, {P.addr(direction)})'
     return h
-
-
-def lambda_captures_hook():
-    """a LambdaExpr used as a call argument prints as the comma-separated list of its captured variables (reference
-    captures of reference-typed variables by address, everything else by value): the spec's stub for the algorithm that
-    receives the closure (std::generate, std::for_each ...) takes them as trailing parameters and calls the outlined
-    lambda body (Fn(..., lambda_index=k, extra_params=[...]))"""
-    def h(P, n):
-        if n.get('kind') != 'LambdaExpr':
-            return None
-        caps = [c for c in n.get('inner', []) if c.get('kind') == 'DeclRefExpr']
-        out = []
-        for c in caps:
-            ty = c['referencedDecl'].get('type', {}).get('qualType', '').rstrip()
-            out.append(P.addr(c) if ty.endswith('&') else P.expr(c))
-        P.note('lambda closure -> captured variables')
-        return ', '.join(out)
-    return h
